@@ -140,5 +140,7 @@ func vRunToCrash(f func()) (crashed bool) {
 	f()
 	return false
 }
+func vOffer(ch interface{}, v interface{}) {}
+func vExpectRecv(ch interface{})            {}
 func vIsSymbolic(x uint64) bool        { return false }
 func vChanPending(ch interface{}) int { return 0 }
